@@ -778,7 +778,7 @@ func sizeClass(n int) string {
 var seqSpec = kit.Spec[SeqCase]{
 	Prop: "C02", Name: "seq",
 	Rule:  "stack MapDatastore -> blockstore -> [two-queue cache 2..64] -> [Bloom 1..4096 bytes, 1..7 hashes] -> [idstore]; op list (<=40, thorough <=80) over a pool of 4-10 honest blocks in all CID alias forms, some preloaded: Put/PutMany/Delete/Has/Get/GetSize/View/AllKeysChan/full sweep/Wait/Rebuild; the backing Query of the initial build and of every Rebuild is planned: complete, error result at position i, context cancelled at position i, and optionally held at position j while further ops run (BloomActive must be false while held); a twelfth of the writes fail atomically in the datastore. Every answer is compared with a map model (= uncached store); final sweep of all CIDs and raw datastore comparison. non-trivial = (an absent key was read while the filter was active and a Put followed activation) or (an enumeration failed and reads followed) or (with a two-queue cache: a key was read, then mutated, then read again)",
-	Quick: 1500, Thorough: 6000,
+	Quick: 2500, Thorough: 12000,
 	Gen: genSeq, Run: runSeq, Journal: true,
 }
 
